@@ -523,7 +523,7 @@ func callSSA(i *interpreter, caller *frame, callpos token.Pos, fn *ssa.Function,
 	r := fr.t.r
 	r.noteFn(fn)
 	fr.t.depth++
-	if fr.t.depth > 400 {
+	if fr.t.depth > r.ex.maxDepth {
 		r.abort(outcomeUnwind, "call depth exceeded in "+fn.String())
 	}
 	defer func() { fr.t.depth-- }()
